@@ -6,7 +6,7 @@ import ast
 from typing import Dict, List, Optional, Set, Tuple
 
 from ..model import AnchorError, Program, dotted, kw, last_attr, norm, parent, walk_no_nested
-from ..report import Check
+from ..report import Check, guard
 from .common import calls_in, guards_of, need_locals, returns_of
 
 
@@ -106,7 +106,7 @@ def r03_c(prog: Program, chk: Check) -> None:
 def run(prog: Program, chk: Check) -> None:
     from .c04 import early_accept_rule
 
-    early_accept_rule(prog, chk, "R03.d")
-    r03_a(prog, chk)
-    r03_b(prog, chk)
-    r03_c(prog, chk)
+    guard(chk, early_accept_rule, prog, chk, "R03.d")
+    guard(chk, r03_a, prog, chk)
+    guard(chk, r03_b, prog, chk)
+    guard(chk, r03_c, prog, chk)
